@@ -910,6 +910,13 @@ func setupRegister(env *object.Environment, name string, value int64, body ast.N
 }
 
 func (s *State) evalForInteger(fe *ast.ForExpression, start *int64, end int64, name string) object.Object {
+	return s.evalForIntegerReg(fe, start, end, name, nil)
+}
+
+// loopReg is set when the loop variable already is a register (integer parameter or the variable of an
+// enclosing loop of the same name): that register is then the loop variable.
+func (s *State) evalForIntegerReg(fe *ast.ForExpression, start *int64, end int64, name string, loopReg *object.Register,
+) object.Object {
 	var lastEval object.Object
 	lastEval = object.NULL
 	startValue := 0
@@ -925,7 +932,9 @@ func (s *State) evalForInteger(fe *ast.ForExpression, start *int64, end int64, n
 	var newBody ast.Node
 	var register object.Register
 	newBody = fe.Body
-	if name != "" && !s.NoReg {
+	if loopReg != nil {
+		ptr = loopReg.Ptr()
+	} else if name != "" && !s.NoReg {
 		var ok bool
 		register, newBody, ok = setupRegister(s.env, name, int64(startValue), fe.Body)
 		if ok {
@@ -936,7 +945,7 @@ func (s *State) evalForInteger(fe *ast.ForExpression, start *int64, end int64, n
 	// non register version does.
 	ran := false
 	done := func(res object.Object) object.Object {
-		if ptr != nil {
+		if ptr != nil && loopReg == nil {
 			last := *ptr
 			s.env.ReleaseRegister(register)
 			if ran {
@@ -984,7 +993,8 @@ func (s *State) evalForSpecialForms(fe *ast.ForExpression) (object.Object, bool)
 	if ie.Token.Type() != token.ASSIGN && ie.Token.Type() != token.DEFINE {
 		return object.NULL, false
 	}
-	if ie.Left.Value().Type() != token.IDENT {
+	loopReg, _ := ie.Left.(*object.Register)
+	if ie.Left.Value().Type() != token.IDENT && loopReg == nil {
 		return s.Errorf("for var = ... not a var %s", ie.Left.Value().DebugString()), true
 	}
 	name := ie.Left.Value().Literal()
@@ -999,15 +1009,15 @@ func (s *State) evalForSpecialForms(fe *ast.ForExpression) (object.Object, bool)
 		if !ok {
 			return s.NewError("for var = n:m m not an integer: " + end.Inspect()), true
 		}
-		return s.evalForInteger(fe, &startInt, endInt, name), true
+		return s.evalForIntegerReg(fe, &startInt, endInt, name, loopReg), true
 	}
 	// Evaluate:
 	v := s.evalInternal(ie.Right)
 	switch v.Type() {
 	case object.REGISTER:
-		return s.evalForInteger(fe, nil, v.(*object.Register).Int64(), name), true
+		return s.evalForIntegerReg(fe, nil, v.(*object.Register).Int64(), name, loopReg), true
 	case object.INTEGER:
-		return s.evalForInteger(fe, nil, v.(object.Integer).Value, name), true
+		return s.evalForIntegerReg(fe, nil, v.(object.Integer).Value, name, loopReg), true
 	case object.ERROR:
 		return v, true
 	case object.ARRAY, object.MAP, object.STRING:
